@@ -85,8 +85,22 @@ def compile_and_run(sc, header, source):
     return problems
 
 
+def generator_contracts(run):
+    """C02(a): the statement generators of cpp.py, for ALL programs (contracts/cpptranslate.py)."""
+    from contracts import cpptranslate
+    from pvc import smt
+
+    items = [(c, {}) for c in cpptranslate.contracts()]
+    pending = []
+    for (c, _), rep in zip(items, run.verify_many(items)):
+        for ob, model, definitive in driver.refuted(run, rep):
+            pending.append((rep, ob, model, definitive))
+    return pending
+
+
 def check(run):
     run.level = "translation_validation"
+    pending = generator_contracts(run)
     n = 40 if run.tier == "thorough" else 6
     programs = 0
     samples = []
@@ -96,18 +110,18 @@ def check(run):
             probs, header, source = G.validate_program(run, sc, f"prog{t}.cse_{'on' if cse else 'off'}", cse=cse, prefix="C02")
             for ob, p in probs[:2]:
                 confirmed = True
-                run.findings.append(Finding(ob.name, p.split(":")[0].split(".")[0][:40], f"program shape n,c,k,sensors={shp} (cse={cse}): {p}", {"language": "c++", "inputs": {"shape": list(shp), "seed": run.seed + 31 * t, "cse": cse, "transcendental": t % 4 == 3, "share_reading": True}, "model_definition": sc.describe()}, confirmed))
+                run.findings.append(Finding(ob.name, p.split(":")[0].split(".")[0][:40], f"program shape n,c,k,sensors={shp} (cse={cse}): {p}", {"language": "c++", "inputs": {"shape": list(shp), "seed": run.seed + 31 * t, "cse": cse, "transcendental": t % 4 == 3, "share_reading": True, "rational": t % 3 == 1}, "model_definition": sc.describe()}, confirmed))
             if t < 2 and cse:
                 run.native_runs += 1
                 okc, err = cppgen.syntax_check(header, source)
                 ob = run.prove(f"C02.cxx.prog{t}.compiles_against_standin", [], z3.BoolVal(okc), function=G.FN)
                 if not okc:
-                    run.findings.append(Finding(ob.name, "compile", f"generated header/source do not compile (stand-in Eigen): {err[-400:]}", {"language": "c++", "inputs": {"shape": list(shp), "seed": run.seed + 31 * t, "cse": cse, "transcendental": t % 4 == 3, "share_reading": True}}, True))
+                    run.findings.append(Finding(ob.name, "compile", f"generated header/source do not compile (stand-in Eigen): {err[-400:]}", {"language": "c++", "inputs": {"shape": list(shp), "seed": run.seed + 31 * t, "cse": cse, "transcendental": t % 4 == 3, "share_reading": True, "rational": t % 3 == 1}}, True))
                 elif shp[3]:
                     run.native_runs += 1
                     for p in compile_and_run(sc, header, source)[:1]:
                         ob2 = run.prove(f"C02.cxx.prog{t}.compiled_values", [], z3.BoolVal(False), function=G.FN)
-                        run.findings.append(Finding(ob2.name, "run", p, {"language": "c++", "inputs": {"shape": list(shp), "seed": run.seed + 31 * t, "cse": cse, "transcendental": t % 4 == 3, "share_reading": True}}, True))
+                        run.findings.append(Finding(ob2.name, "run", p, {"language": "c++", "inputs": {"shape": list(shp), "seed": run.seed + 31 * t, "cse": cse, "transcendental": t % 4 == 3, "share_reading": True, "rational": t % 3 == 1}}, True))
             if len(samples) < 2:
                 samples.append({"program": sc.describe(), "generated_source_excerpt": source[:1200]})
     # plain (non-EKF) Model::model path
@@ -116,13 +130,25 @@ def check(run):
         programs += 1
         for ob, p in probs[:1]:
             run.findings.append(Finding(ob.name, "Model::model", f"plain model, shape {shp}: {p}", {"language": "c++", "inputs": {"shape": list(shp), "seed": run.seed + 5 + 31 * t, "cse": True, "ekf": False}}, True))
+    # generator-level refutations: confirmed by the per-program validation of this same run when it found a wrong program
+    for rep, ob, model, definitive in pending:
+        confirmed = bool(run.findings)
+        structural = z3.is_false(z3.simplify(ob.goal))
+        if not confirmed and not structural and not definitive:
+            run.undecided.append(ob.name)
+            continue
+        what = f"{ob.name} refuted ({getattr(ob, 'note', '') or 'generator contract'})" + (f"; a generated program is wrong: {run.findings[0].what[:160]}" if confirmed else "")
+        run.findings.append(Finding(ob.name, rep.key.split(".")[-1], what, {"language": "python", "function": rep.key, "inputs": run.findings[0].payload.get("inputs") if confirmed else None, "counter_model": str(model)[:600] if model is not None else None}, confirmed, theory=ob.theory))
     run.extra.update({"programs": programs, "disagreements_checked": sum(1 for r in run.all_obligation_rows()), "samples": samples})
 
 
 def replay_file(payload):
-    inp = payload["inputs"]
+    inp = payload.get("inputs")
+    if not inp:
+        print("replay C02: generator-level obligation without a concrete program (see the obligation's note)")
+        return True
     shp = inp["shape"]
-    sc = scenarios.Scenario(shp[0], shp[1], shp[2], shp[3], seed=inp["seed"], transcendental=inp.get("transcendental", False), share_reading=inp.get("share_reading", False))
+    sc = scenarios.Scenario(shp[0], shp[1], shp[2], shp[3], seed=inp["seed"], transcendental=inp.get("transcendental", False), share_reading=inp.get("share_reading", False), rational=inp.get("rational", False))
     run = driver.PropertyRun("C02", "quick", 0)
     probs, h, s = G.validate_program(run, sc, "replay", cse=inp.get("cse", True), ekf=inp.get("ekf", True))
     print("replay C02:", [p for _, p in probs[:4]] or "generated functions equal the symbolic expressions")
